@@ -159,6 +159,17 @@ CHECKS.update({
          "AY on/off, both machines and three drain policies; MixerTrace judges count, finiteness, the volume bound, and the position of every edge."),
    note="Trusted: TLC, the clock hook, the mapping of sample values to the four speaker/MIC levels (beeper-only configurations). Sampling over write plans."),
 })
+CHECKS.update({
+ "C18": dict(
+   category="model_checking", design_ref="4 (C18)", technique="TLC check of the envelope machine against the documented shape catalogue + TLC validation of tick-level and output-level experiments on the real AY core",
+   text=("Ay.tla states tone/noise/envelope periods, the 16 envelope shapes as a closed formula from the data-sheet bits (CONTINUE/ATTACK/ALTERNATE/HOLD), "
+         "the level index with mixer gating and the pan table; MC_Ay checks that the implementation-shaped segment/reset-table envelope machine produces "
+         "exactly those shapes. Through the cfg(rustzx_verif) level hook the real core is observed per chip tick: tone half-periods, the noise clock, every "
+         "envelope value after an R13 write, gating for random register sets. On the analog side: strictly increasing DAC levels, pan class per mode and "
+         "channel, zero-crossing frequency at 8..384 kHz, finiteness and |s| <= 3. Through the Spectrum ports: select wraps mod 16 and reads return the "
+         "last written value."),
+   note="Trusted: TLC, the level hook (3 indices per tick, recorded inside update_mixer). Not decided: numeric accuracy of the resampling/filter chain."),
+})
 NOT_YET = {}
 
 HOOK_COMMITS = ["71990aa"]
